@@ -186,6 +186,9 @@ def faults(kind, R, eps, rng):
             yield 'undeclared_tape_symbol', join(heads, trans + ['%s %s Q%s,R' % (R[4], b, bl)])
         for bad in ('%s%s,X' % (bl, bl), '%s,R' % bl, '%s%s%s,R' % (bl, bl, bl), '%s%sR' % (bl, bl), '%s%s,' % (bl, bl), '%s%s,RL' % (bl, bl)):
             yield 'ill_formed_tm_label', join(heads, trans + ['%s %s %s' % (a, b, bad)])
+        # the tape_symbols declaration omits the blank although a transition reads or writes it
+        if any(d[1] == bl or d[3] == bl for d in R[3]):
+            yield 'tape_symbols_omit_used_blank', join([('tape_symbols ' + ' '.join(x for x in R[2] if x != bl)).rstrip() if l.startswith('tape_symbols') else l for l in heads], trans)
         # accept and reject the same state
         yield 'accept_equals_reject', join([('reject ' + R[5]) if l.startswith('reject') else l for l in heads], trans)
 
